@@ -518,13 +518,17 @@ def writeBasisFitsOld (b : ModeBasis) : Except Err FitsFile := do
       else if g.coords.isRegular then .ok ⟨some img, t.erase .tm⟩ else .error .value
     else .ok ⟨none, t⟩
 
+/-- astropy returns single-byte and (`BZERO`-scaled) unsigned images in native byte order, every
+other image big endian -/
+def fitsNative (dtype : String) : Bool := ["u1", "i1", "u2", "u4", "u8"].contains dtype
+
 /-- unrepaired `read_mode_basis`: `modes.reshape(old_shape).T`, image still big endian -/
 def readBasisFitsOld (file : FitsFile) : Except Err ModeBasis :=
   match file.image with
   | some img => do
     let g ← Grid.fromDict (← file.tree.get .grid)
     let m ← img.reshape (img.shape.take (img.shape.length - g.coords.ndim) ++ [g.coords.size])
-    ModeBasis.fromDict (file.tree.set .tm (.arr m.transposeAll)) false
+    ModeBasis.fromDict (file.tree.set .tm (.arr m.transposeAll)) (fitsNative img.dtype)
   | none => ModeBasis.fromDict file.tree true
 
 end HcipyVerif.Serial
